@@ -15,6 +15,8 @@ import (
 
 	"github.com/kercylan98/vivid"
 	"github.com/kercylan98/vivid/internal/actor"
+	"github.com/kercylan98/vivid/internal/future"
+	"github.com/kercylan98/vivid/internal/verifhook"
 	"github.com/kercylan98/vivid/pkg/log"
 )
 
@@ -30,7 +32,77 @@ type askGo struct {
 	Echoes int // asks to an actor that replies at once
 }
 
+// askWindow: a waiter that arrives while a completion is in progress — the completer has claimed the
+// future (closed flag set) but has not stored the result yet — must stay blocked until the result is
+// there, and then return exactly that result. The completer is parked at the yield site between the
+// claim and the write.
+func askWindow(name string) string {
+	f := future.NewFuture[vivid.Message](nil, 0, func() {})
+	parked, release := make(chan struct{}), make(chan struct{})
+	var once sync.Once
+	verifhook.Install(func(site string, obj any) {
+		if site == "fut.close.write" && obj == any(f) {
+			once.Do(func() { close(parked) })
+			<-release
+		}
+	})
+	defer verifhook.Install(nil)
+	wantErr := name == "wait-window"
+	go func() {
+		if wantErr {
+			f.Close(vivid.ErrorFutureTimeout)
+		} else {
+			f.EnqueueMessage("reply-42")
+		}
+	}()
+	select {
+	case <-parked:
+	case <-time.After(2 * time.Second):
+		close(release)
+		return "HARNESS: the completer never reached the yield site fut.close.write"
+	}
+	type res struct {
+		m   vivid.Message
+		err error
+	}
+	out := make(chan res, 1)
+	go func() {
+		if wantErr {
+			out <- res{nil, f.Wait()}
+		} else {
+			m, err := f.Result()
+			out <- res{m, err}
+		}
+	}()
+	early := ""
+	select {
+	case r := <-out:
+		early = fmt.Sprintf("RESULT-BEFORE-DONE: a waiter that arrived while the completion was in progress (claimed, result not stored yet) returned (%v, %v) instead of blocking", r.m, r.err)
+		out <- r
+	case <-time.After(150 * time.Millisecond):
+	}
+	close(release)
+	select {
+	case r := <-out:
+		if early != "" {
+			return early
+		}
+		if wantErr && (r.err == nil || !strings.Contains(r.err.Error(), vivid.ErrorFutureTimeout.GetMessage())) {
+			return fmt.Sprintf("ASK-ONCE: Wait() on a future closed with the timeout error returned %v", r.err)
+		}
+		if !wantErr && (r.err != nil || r.m != "reply-42") {
+			return fmt.Sprintf("ASK-REPLY: Result() returned (%v, %v), the future was completed with reply-42", r.m, r.err)
+		}
+	case <-time.After(2 * time.Second):
+		return "ASK-HANG: the waiter did not return after the completion had finished"
+	}
+	return early
+}
+
 func askScenario(name string) string {
+	if name == "result-window" || name == "wait-window" {
+		return askWindow(name)
+	}
 	ctx, cancel := context.WithCancel(context.Background())
 	defer cancel()
 	sys := actor.NewSystem(vivid.WithActorSystemContext(ctx), vivid.WithActorSystemLogger(log.NewSilentLogger()))
@@ -183,7 +255,7 @@ func (e *askrtEngine) Exec(line string) (string, string) {
 	return "-", ""
 }
 
-var askScenarios = []string{"reply", "timeout", "late-reply", "close", "asker-dies-1-0", "asker-dies-3-0", "asker-dies-1-1", "asker-dies-1-3", "asker-dies-2-3", "asker-dies-3-1", "asker-restarts"}
+var askScenarios = []string{"result-window", "wait-window", "reply", "timeout", "late-reply", "close", "asker-dies-1-0", "asker-dies-3-0", "asker-dies-1-1", "asker-dies-1-3", "asker-dies-2-3", "asker-dies-3-1", "asker-restarts"}
 
 func (e *askrtEngine) Generate(c *Ctx) {
 	reps := 1
